@@ -46,7 +46,8 @@ THEOREMS = ["Cppcheck.Cache." + t for t in (
     "fixed_key_faithful", "render_pathPrefixed", "files_txt_mapping_injective", "files_txt_mapping_injective_partial",
     "encoding_not_injective", "linecol_mod_256_counterexample", "file_boundary_counterexample", "suffix_lookup_shares_cache_file",
     "suffix_lookup_counterexample", "removed_file_counterexample", "macro_suppression_counterexample", "summaries_counterexample",
-    "current_encoding_fixed", "current_lookup_exact", "current_toolinfo_path_first", "current_toolinfo_fields_known",
+    "current_encoding_fixed", "current_lookup_exact", "current_reader_all", "cachedErrors_all", "cachedErrors_any_interleaving",
+    "errorPrefix_reader_counterexample", "entry_findings_from_document", "current_toolinfo_path_first", "current_toolinfo_fields_known",
     "hashInput_fixed_unique", "ofSettings_pathPrefixed", "run_any_worker_order", "hash_collision_counterexample")]
 MODULES = ["Cppcheck.Props.C18"]
 
@@ -389,6 +390,30 @@ def translate_lookup(repo):
     return LOOKUP_SHAPES[body]
 
 
+def translate_reader(repo):
+    """AnalyzerInformation::skipAnalysis: the loop over the children of the root must visit every child and skip (not stop at) the ones
+    that are not <error>"""
+    src = strip_comments(open(os.path.join(repo, "lib", "analyzerinfo.cpp")).read())
+    body = function_body(src, r"std::string\s+AnalyzerInformation::skipAnalysis\s*\([^)]*\)\s*\{")
+    loops = [st for st in statements(body) if isinstance(st, tuple) and st[0].startswith("for ")]
+    if len(loops) != 1:
+        raise Unrecognised("skipAnalysis has %d top level loops, expected the one over the children of the root" % len(loops))
+    head, inner = loops[0]
+    if head != "for (const tinyxml2::XMLElement *e = rootNode->FirstChildElement(); e; e = e->NextSiblingElement())":
+        raise Unrecognised("skipAnalysis does not iterate over all children of the root: " + head)
+    if not inner or inner[0] != ('if (std::strcmp(e->Name(), "error") != 0)', ["continue"]):
+        raise Unrecognised("skipAnalysis: the first statement of the loop is not `if (strcmp(e->Name(), \"error\") != 0) continue;`: %r" % (inner[:1],))
+    if inner[-1] != "errors.emplace_back(e)":
+        raise Unrecognised("skipAnalysis: the loop does not end with errors.emplace_back(e): %r" % (inner[-1:],))
+    for st in inner[1:-1]:
+        if isinstance(st, tuple) and st[0] == "for (const auto* id : s_ids)":
+            continue
+        if isinstance(st, str) and st.startswith("static const std::array<const char*, 3> s_ids"):
+            continue
+        raise Unrecognised("skipAnalysis: unrecognised statement in the loop: %r" % (st,))
+    return "allChildren"
+
+
 def lean_item(t):
     k = t[0]
     if k in ("sevFlag", "boolFlag"):
@@ -408,7 +433,7 @@ def lean_item(t):
     return "." + k
 
 
-def gen_text(items, pre, tok, hdr, lk):
+def gen_text(items, pre, tok, hdr, lk, reader="allChildren"):
     L = ["import Cppcheck.Model.Cache",
          "/- GENERATED by vlib/props/c18.py from CppCheck::calculateHash (lib/cppcheck.cpp), Preprocessor::calculateHash",
          "   (lib/preprocessor.cpp) and AnalyzerInformation::getAnalyzerInfoFileFromFilesTxt (lib/analyzerinfo.cpp) — do not edit -/",
@@ -423,6 +448,8 @@ def gen_text(items, pre, tok, hdr, lk):
          "    hdr := [%s] }" % ", ".join(lean_item(t) for t in hdr), "",
          "/-- getAnalyzerInfoFileFromFilesTxt -/",
          "def lookupKind : LookupKind := .%s" % lk, "",
+         "/-- AnalyzerInformation::skipAnalysis: how the children of the cache document are visited -/",
+         "def errorReader : ReaderKind := .%s" % reader, "",
          "end Cppcheck.Gen.HashInput", ""]
     return "\n".join(L)
 
@@ -432,22 +459,29 @@ def extract(repo=None):
     items = translate_toolinfo(repo)
     pre, tok, hdr = translate_preimage(repo)
     lk = translate_lookup(repo)
-    return items, pre, tok, hdr, lk
+    reader = translate_reader(repo)
+    return items, pre, tok, hdr, lk, reader
 
 
-FALLBACK = gen_text([], [], [], [], "suffixFirst")
+FALLBACK = gen_text([], [], [], [], "suffixFirst", "errorPrefix")
 
 
 def translate(ctx):
-    """writes Gen/HashInput.lean; returns (ok, detail, extraction)"""
-    try:
-        ex = extract()
-        ctx.write_gen("HashInput", gen_text(*ex))
-        return True, "", ex
-    except (Unrecognised, OSError, ValueError, IndexError) as e:
-        # fail closed: an empty composition (no theorem about the current key can be discharged over it)
-        ctx.write_gen("HashInput", FALLBACK)
-        return False, "unrecognised shape: %s" % e, None
+    """writes Gen/HashInput.lean; returns (ok, detail, extraction).  Each of the four extractions fails closed on its own: the part that is
+    not recognised is written as the composition / lookup / reader no theorem about the current code can be discharged over."""
+    repo = core.REPO
+    parts, errs = {}, []
+    for name, fn, fallback in (("toolinfo", translate_toolinfo, []), ("preimage", translate_preimage, ([], [], [])),
+                               ("lookup", translate_lookup, "suffixFirst"), ("reader", translate_reader, "errorPrefix")):
+        try:
+            parts[name] = fn(repo)
+        except (Unrecognised, OSError, ValueError, IndexError) as e:
+            parts[name] = fallback
+            errs.append("%s: unrecognised shape: %s" % (name, e))
+    pre, tok, hdr = parts["preimage"]
+    ex = (parts["toolinfo"], pre, tok, hdr, parts["lookup"], parts["reader"])
+    ctx.write_gen("HashInput", gen_text(*ex))
+    return (not errs), "; ".join(errs), (ex if not errs else None)
 
 
 # ---- in-process correspondence ------------------------------------------------------------------------------------------
@@ -648,6 +682,30 @@ def mapping_cases(ctx, res, exe, drv, n):
     rc, mout, err = core.run_lines(drv, [], xm)
     impl = [("1 0" if o.startswith("x 2") or o.startswith("x 1") else o[2:]) for o in xout]
     core.correspond(ctx, res, "reuse-decision", xm, impl, mout)
+    # documents as CppCheck::checkInternal writes them: per preprocessor configuration its <error>s, then its <FileInfo>s
+    xh, xm = [], []
+    for _ in range(n):
+        cur = rng.choice([1, 42, 12762895872217985630])
+        kids = []
+        for _cfg in range(rng.choice([1, 2, 2, 3, 4])):
+            kids += ["E" + rng.choice(IDS[:1] * 3 + IDS) for _ in range(rng.choice([0, 1, 1, 2]))]
+            kids += ["F"] * rng.choice([0, 1, 2, 4])
+        if rng.random() < 0.15:
+            rng.shuffle(kids)
+        xml = '<?xml version="1.0"?>\n<analyzerinfo hash="%d">\n' % cur
+        for k in kids:
+            if k == "F":
+                xml += '  <FileInfo check="ctu">\n<function-call call-id="a.c:3:12" call-funcname="f" call-argnr="1" file="a.c" line="1" col="1"/>  </FileInfo>\n'
+            else:
+                xml += '        <error id="%s" severity="error" msg="m" verbose="m" file0="a.c">\n            <location file="a.c" line="1" column="2"/>\n        </error>\n' % k[1:]
+        xml += "</analyzerinfo>\n"
+        xh.append("X %d %s" % (cur, core.hx(xml)))
+        xm.append("rd %d %d %d %s" % (cur, cur, len(kids), " ".join(("E" + core.hx(k[1:])) if k != "F" else "F" for k in kids)))
+        res.count("doc:errors-after-fileinfo" if any(k != "F" for k in kids[(kids.index("F") if "F" in kids else len(kids)):]) else "doc:errors-first")
+    rc, xout, err = core.run_lines([exe, scratch], [], xh)
+    rc, mout, err = core.run_lines(drv, [], xm)
+    impl = [("1 0" if o.startswith("x 2") or o.startswith("x 1") else o[2:]) for o in xout]
+    core.correspond(ctx, res, "cached-errors-read", xm, impl, mout, nontrivial=lambda op, out: " F E" in op)
 
 
 # ---- CLI histories ----------------------------------------------------------------------------------------------------------
@@ -708,6 +766,8 @@ def cppcheck(ctx, cwd, files, bd=None, jobs=1, extra=None):
 
 KEY_SUMM = "summaries-not-in-cache-key"
 KEY_LIBFILE = "library-file-contents-not-in-key"
+KEY_TOKERR = "stale-fileinfo-after-tokenize-error"
+WP_IDS = ("ctunullpointer", "ctuuninitvar", "ctuArrayIndex", "ctuPointerArith", "ctuOneDefinitionRuleViolation")
 BASE_OPTS = ["--inline-suppr"]
 
 
@@ -830,6 +890,12 @@ def classify(ctx, run, trees, jobs, tag):
         keys.add(KEY_MACRO)
     if keys:
         return keys
+    # a file whose raw tokenization failed is never looked up in the cache (no decision line, a syntaxError finding of its own): its old
+    # cache file stays and the whole-program pass reads the stale <FileInfo>.  Explains whole-program findings only the cached run has.
+    early = [f for f in run["files"] if f not in run["dec"] and any(l.startswith(f + "|") and "|syntaxError|No pair for character" in l for l in run["cached"])]
+    d0 = set(run["cached"]) ^ set(run["fresh"])
+    if early and d0 and d0 <= set(run["cached"]) and all(l.split("|")[4] in WP_IDS for l in d0):
+        return {KEY_TOKERR}
     # a library file named by --library=<file> was edited after the differing file was analysed last: the *contents* of library
     # files are not part of the key (only their names).  Explains differing findings located in files served from the cache.
     libs = [x.split("=", 1)[1] for x in run["xopts"] if x.startswith("--library=")]
@@ -863,15 +929,22 @@ def judge_history(ctx, res, trees, jobs, runs, tag, origin):
         if r is None:
             continue
         # C3: decisions
-        canon_i = " ".join("%s=%s:%s" % (f, os.path.basename(r["dec"].get(f, ("?", "?"))[0]), r["dec"].get(f, ("?", "?"))[1]) for f in r["files"])
-        canon_m = " ".join("%s=%s:%s" % (f, r["model"][f][0], r["model"][f][1]) for f in r["files"])
+        # a file that fails before the cache is consulted (raw tokenization error) prints no decision; the model cannot know: such files are
+        # left out, and since the build directory then differs from the model's (old cache file kept) later runs of the history are not compared
+        nodec = [f for f in r["files"] if f not in r["dec"] and any(l.startswith(f + "|") and "|syntaxError|" in l for l in r["cached"])]
+        cmpf = [f for f in r["files"] if f not in nodec]
+        canon_i = " ".join("%s=%s:%s" % (f, os.path.basename(r["dec"].get(f, ("?", "?"))[0]), r["dec"].get(f, ("?", "?"))[1]) for f in cmpf)
+        canon_m = " ".join("%s=%s:%s" % (f, r["model"][f][0], r["model"][f][1]) for f in cmpf)
         racy = r["jobs"] > 1 and len(set(v[0] for v in r["model"].values())) < len(r["files"])
         op = "%s run %d -j%d %s" % (tag, k, r["jobs"], hashlib.sha1(json.dumps(trees[:k + 1], sort_keys=True).encode()).hexdigest()[:10])
         tainted = tainted or racy
+        if nodec:
+            res.count("decisions-not-compared:no-lookup-after-tokenize-error")
         if not tainted:         # two workers writing one cache file: the order is not determined
             ops.append(op); impl.append(canon_i); model.append(canon_m)
         else:
             res.count("decisions-not-compared:racy-shared-cache-file")
+        tainted = tainted or bool(nodec)
         res.count("hist:" + origin)
         res.count("jobs:%d" % r["jobs"])
         for f in r["files"]:
@@ -899,6 +972,9 @@ def judge_history(ctx, res, trees, jobs, runs, tag, origin):
 LIBCFG = '<?xml version="1.0"?>\n<def>\n  <memory>\n    <alloc>%s</alloc>\n    <dealloc>myfree</dealloc>\n  </memory>\n</def>\n'
 
 
+MULTICFG = ("static int first@(const int *v)\n{\n    return v[0];\n}\nvoid store@(int *p, int v)\n{\n    int defaults[2] = {0, 1};\n"
+            "    *p = v + first@(defaults) + defaults[2];\n}\nint scale@(int v)\n{\n#ifdef WITH_TABLE@\n    int table[4] = {1, 2, 4, 8};\n"
+            "    return table[4] * v;\n#else\n    return v * 2;\n#endif\n}\n#ifdef OTHER@\nint other@(int y){return y/0;}\n#endif\n")
 DIGIT_A = "int scale(void) {\n    int x = 5;\n    int x1 = 0;\n    return 10 /\nx1\n" + "\n" * 10 + "    ;\n}\n"
 DIGIT_B = "int scale(void) {\n    int x = 5;\n    int x1 = 0;\n    return 10 /\n" + "\n" * 10 + "x\n    ;\n}\n"
 
@@ -946,6 +1022,10 @@ class Gen:
         if rng.random() < 0.3:
             tree["p.c"] = '#include "p.h"\n' + self.bug_line() + "\n"
             tree["p.h"] = ""
+        if rng.random() < 0.4:
+            # several preprocessor configurations: findings and whole-program information per configuration, interleaved in the cache file
+            k = self.fresh()
+            tree["mc%d.c" % k] = MULTICFG.replace("@", str(k))
         if rng.random() < 0.3:
             tree["dm.c"] = DIGIT_A
         if rng.random() < 0.25:
